@@ -324,7 +324,10 @@ func H_C12_prog() {
 		vassert(ferr != nil, "Finish inside a container returns an error")
 	}
 	if ferr == nil {
-		vassume(m.nann == 0 && !m.haveField)
+		// a field name pending at the final Finish is outside the claim; an annotation pending at the final Finish has
+		// no value to attach to: whether Finish refuses or drops it is not specified, but if Finish succeeds the stream
+		// must still be correct, i.e. hold exactly the values written (checked below)
+		vassume(!m.haveField)
 		enc := out.buf
 		if config >= 2 {
 			if len(m.evs) > 0 {
